@@ -180,24 +180,25 @@ def gen_inputs(tier, rng):
     big = tier == "thorough"
     # (a) exhaustive small masks
     lim = 8 if big else 6
-    i = 0
+    i = 0; mi = 0
     for h in range(1, lim + 1):
         for w in range(1, lim // h + 1):
             for m in all_masks(h, w):
-                n = len(unmasked(m))
-                for s in (1, 2, 4):
+                n = len(unmasked(m)); mi += 1
+                for sidx, s in enumerate((1, 2, 4)):
                     i += 1
-                    via = "class" if (n > 0 and i % 3) else "util"
+                    rot = (mi + sidx) % 3            # rotates over the sub-sizes from mask to mask
+                    via = "class" if (n > 0 and (mi // 3 + sidx) % 3 != 0) else "util"
                     ps, og = [["1", "1"], ["2", "1/2"], ["1/4", "4"]][i % 3], [["0", "0"], ["1/4", "-1/2"], ["-3/4", "2"]][(i // 3) % 3]
-                    if big or s < 4 or i % 3 == 0:
+                    if big or s < 4 or rot == 0:
                         yield {"op": "grid", "m": m, "ps": ps, "og": og, "ss": [s] * n, "via": via, "int": via == "class"}
-                    if big or i % 3 == 0:      # quick tier: index table and binning at one (rotating) sub-size per mask
+                    if big or rot == 0:      # quick tier: index table and binning at one (rotating) sub-size per mask
                         yield {"op": "slimsub", "m": m, "ss": [s] * n, "via": via, "int": via == "class"}
                         yield {"op": "bin", "m": m, "ss": [s] * n, "arr": [str(3 * k - 7) for k in range(n * s * s)], "via": via, "int": via == "class"}
-                if n > 0 and i % 4 == 0:
+                if n > 0 and mi % 4 == 0:
                     yield {"op": "grid", "m": m, "ps": ["3/2", "1"], "og": ["1/4", "0"], "ss": [3] * n, "via": "class", "int": True}
                     yield {"op": "nativesub", "m": m, "ss": [2] * n, "via": "class", "int": True}
-                yield {"op": "centres", "m": m, "ps": ["2", "1/2"], "og": ["1/4", "-1/2"], "via": "from_mask" if n and i % 2 else "util"}
+                yield {"op": "centres", "m": m, "ps": ["2", "1/2"], "og": ["1/4", "-1/2"], "via": "from_mask" if n and mi % 2 else "util"}
     # (b) random, exact
     nb = 2500 if big else 260
     for _ in range(nb):
